@@ -224,8 +224,11 @@ class LLOneParser:
         stack = ["$", parse_tree]
         while stack:
             current = stack.pop()
-            if current == "$" and word[-1] == "$":
-                return parse_tree
+            if current == "$":
+                if word[-1] == "$":
+                    return parse_tree
+                # The derivation is complete but some input remains
+                raise NotParsableException
             if current.value == word[-1]:
                 word.pop()
             else:
